@@ -282,16 +282,23 @@ Definition step_dom (marker : node) (mc : list (option item)) (w : work) (im : n
   | _ => panic w
   end.
 
-(** [view_fn(at, item).1.build()] for an item of [m] nodes *)
-Definition build_item (m : nat) (k : N) (w : work) : item :=
-  {| it_key := k; it_gen := w_gen w;
-     it_nodes := map (fun j => (w_next w + N.of_nat j)%N) (seq 0 m) |}.
+(** what building the item view of a key allocates: [b k next] = (the top-level nodes of the
+    new item state, in order; the next free id).  The item views are arbitrary views, the
+    keyed list only sees the nodes their states own. *)
+Definition builder := N -> N -> list node * N.
+(** every item owns [m] consecutive nodes (the views of harness mode c11) *)
+Definition fixed_bld (m : nat) : builder :=
+  fun _ nx => (map (fun j => (nx + N.of_nat j)%N) (seq 0 m), (nx + N.of_nat m)%N).
 
-Definition step_add (m : nat) (marker : node) (items : list N) (w : work) (a : addop) : work :=
+(** [view_fn(at, item).1.build()] *)
+Definition build_item (b : builder) (k : N) (w : work) : item :=
+  {| it_key := k; it_gen := w_gen w; it_nodes := fst (b k (w_next w)) |}.
+
+Definition step_add (b : builder) (marker : node) (items : list N) (w : work) (a : addop) : work :=
   if w_panic w then w else
   match nth_error items (a_at a) with
   | Some k =>
-      let it := build_item m k w in
+      let it := build_item b k w in
       if a_at a <? length (w_children w) then
         {| w_children := set_nth (a_at a) (Some it) (w_children w);
            w_dom := match a_mode a with
@@ -299,7 +306,7 @@ Definition step_add (m : nat) (marker : node) (items : list N) (w : work) (a : a
                     | Append => mount_item it (Some marker) (w_dom w)
                     end;
            w_log := w_log w ++ [EvBuild k (w_gen w) (a_at a); EvMount k (w_gen w)];
-           w_next := (w_next w + N.of_nat m)%N; w_gen := S (w_gen w); w_panic := false |}
+           w_next := snd (b k (w_next w)); w_gen := S (w_gen w); w_panic := false |}
       else panic w
   | None => panic w
   end.
@@ -321,7 +328,7 @@ Definition with_children (w : work) (c : list (option item)) : work :=
      w_gen := w_gen w; w_panic := w_panic w |}.
 
 (** [apply_diff(Some(parent), marker, diff, children, view_fn, items)] *)
-Definition apply_diff (m : nat) (marker : node) (d : diff_t) (items : list N) (w : work) : work :=
+Definition apply_diff (b : builder) (marker : node) (d : diff_t) (items : list N) (w : work) : work :=
   let w := if d_clear d
            then with_children (fold_left step_clear (w_children w) w) []
            else w in
@@ -332,14 +339,14 @@ Definition apply_diff (m : nat) (marker : node) (d : diff_t) (items : list N) (w
   let w := with_children w (w_children w ++ repeat None (length (d_added d))) in
   let w := fold_left (step_nondom mc) (enumerate_from 0 moves) w in
   let w := fold_left (step_dom marker mc) (enumerate_from 0 moves) w in
-  let w := fold_left (step_add m marker items) adds w in
+  let w := fold_left (step_add b marker items) adds w in
   with_children w (map Some (somes (w_children w))).
 
 (* ---------------------------------------------------- Keyed / KeyedState *)
 
 (** [KeyedState] mounted in a parent whose children are [ks_dom] *)
 Record kstate := {
-  ks_m : nat;                 (* nodes per item *)
+  ks_bld : builder;           (* what the item views allocate *)
   ks_dom : list node;         (* children of the parent element *)
   ks_marker : node;           (* KeyedState.marker *)
   ks_keys : list N;           (* hashed_items *)
@@ -347,12 +354,12 @@ Record kstate := {
   ks_next : N;
   ks_gen : nat }.
 
-Definition step_build (m : nat) (acc : work) (ik : nat * N) : work :=
+Definition step_build (b : builder) (acc : work) (ik : nat * N) : work :=
   let '(i, k) := ik in
-  let it := build_item m k acc in
+  let it := build_item b k acc in
   {| w_children := w_children acc ++ [Some it]; w_dom := w_dom acc;
      w_log := w_log acc ++ [EvBuild k (w_gen acc) i];
-     w_next := (w_next acc + N.of_nat m)%N; w_gen := S (w_gen acc); w_panic := w_panic acc |}.
+     w_next := snd (b k (w_next acc)); w_gen := S (w_gen acc); w_panic := w_panic acc |}.
 
 Definition step_mount (anchor : option node) (w : work) (it : item) : work :=
   {| w_children := w_children w; w_dom := mount_item it anchor (w_dom w);
@@ -361,14 +368,14 @@ Definition step_mount (anchor : option node) (w : work) (it : item) : work :=
 
 (** [keyed(keys, ..).build()] followed by [state.mount(parent, anchor)] in a parent whose
     children are [dom]; node ids are allocated from [next] *)
-Definition build_mount (m : nat) (dom : list node) (anchor : option node) (next : N) (keys : list N)
+Definition build_mount (b : builder) (dom : list node) (anchor : option node) (next : N) (keys : list N)
   : kstate * list event :=
   let w0 := {| w_children := []; w_dom := dom; w_log := []; w_next := next; w_gen := 0;
                w_panic := false |} in
-  let w1 := fold_left (step_build m) (enumerate_from 0 keys) w0 in
+  let w1 := fold_left (step_build b) (enumerate_from 0 keys) w0 in
   let marker := w_next w1 in
   let w2 := fold_left (step_mount anchor) (somes (w_children w1)) w1 in
-  ({| ks_m := m; ks_dom := insert_before marker anchor (w_dom w2); ks_marker := marker;
+  ({| ks_bld := b; ks_dom := insert_before marker anchor (w_dom w2); ks_marker := marker;
       ks_keys := keys; ks_items := somes (w_children w2);
       ks_next := (marker + 1)%N; ks_gen := w_gen w2 |}, w_log w2).
 
@@ -376,8 +383,8 @@ Definition build_mount (m : nat) (dom : list node) (anchor : option node) (next 
 Definition rebuild (st : kstate) (new_keys : list N) : kstate * list event * bool :=
   let w0 := {| w_children := map Some (ks_items st); w_dom := ks_dom st; w_log := [];
                w_next := ks_next st; w_gen := ks_gen st; w_panic := false |} in
-  let w := apply_diff (ks_m st) (ks_marker st) (diff (ks_keys st) new_keys) new_keys w0 in
-  ({| ks_m := ks_m st; ks_dom := w_dom w; ks_marker := ks_marker st; ks_keys := new_keys;
+  let w := apply_diff (ks_bld st) (ks_marker st) (diff (ks_keys st) new_keys) new_keys w0 in
+  ({| ks_bld := ks_bld st; ks_dom := w_dom w; ks_marker := ks_marker st; ks_keys := new_keys;
       ks_items := somes (w_children w); ks_next := w_next w; ks_gen := w_gen w |},
    w_log w, w_panic w).
 
